@@ -46,7 +46,9 @@ def _case(draw):
                 ops.append(['lose'])
         else:
             ops.append([o, draw(st.integers(0, 9))])
-    return {'variant': variant, 'tid_start': draw(st.sampled_from([0, 0, 0xFFF0, 0xFFFD, 0xFFFE])), 'ops': ops}
+    return {'variant': variant, 'tid_start': draw(st.sampled_from([0, 0, 0xFFF0, 0xFFFD, 0xFFFE])), 'ops': ops,
+            # the protocol accepts a framer instance or a framer class
+            'framer_as_class': draw(st.booleans())}
 
 
 def strategy(tier):
@@ -73,7 +75,10 @@ def run_case(case):
     framing = 'tcp' if variant == 'tcp' else 'rtu'
     labels = ['variant:' + variant]
     discs = []
-    proto = ModbusClientProtocol(framer=(ModbusSocketFramer if variant == 'tcp' else ModbusRtuFramer)(ClientDecoder()))
+    fcls = ModbusSocketFramer if variant == 'tcp' else ModbusRtuFramer
+    proto = ModbusClientProtocol(framer=fcls if case.get('framer_as_class') else fcls(ClientDecoder()))
+    if case.get('framer_as_class'):
+        labels.append('framer-given-as-class')
     tr = StringTransport()
     proto.makeConnection(tr)
     proto.transaction.tid = case['tid_start']
